@@ -60,6 +60,7 @@ func exercise(x *h.X, m tink.MAC, want oracle, maxLen int, prefixLen int, otherP
 		}
 		lengths = append(lengths, ref.LongLengths(pw, 17)...)
 	}
+	var scratch []byte
 	for _, n := range lengths {
 		for p := 0; p < npat; p++ {
 			kind := p + 2 // quick: counter and 0xA5^i patterns
@@ -67,7 +68,14 @@ func exercise(x *h.X, m tink.MAC, want oracle, maxLen int, prefixLen int, otherP
 				kind = p
 			}
 			msg := ref.Pattern(kind, n)
-			t1, err1 := m.ComputeMAC(msg)
+			// the first call gets the message in a buffer the caller REUSES for every message (same slice, new contents):
+			// a MAC that remembers its input by reference answers from an earlier call's contents
+			if cap(scratch) < n {
+				scratch = make([]byte, n+4096)
+			}
+			reused := scratch[:n:n]
+			copy(reused, msg)
+			t1, err1 := m.ComputeMAC(reused)
 			t2, err2 := m.ComputeMAC(msg)
 			x.Eval(1)
 			if err1 != nil || err2 != nil {
@@ -83,7 +91,22 @@ func exercise(x *h.X, m tink.MAC, want oracle, maxLen int, prefixLen int, otherP
 				x.Fail("wrong-tag", "%s len=%d pattern=%d: ComputeMAC=%x reference=%x", cfg, n, p, t1, exp)
 				return
 			}
-			if err := m.VerifyMAC(t1, msg); err != nil {
+			if n > 0 {
+				// back to back on the SAME slice with one byte rewritten in place
+				reused[n/2] ^= 0x80
+				edited := bytes.Clone(reused)
+				tR, errR := m.ComputeMAC(reused)
+				if errR != nil || !bytes.Equal(tR, want(edited)) {
+					x.Fail("retains-argument", "%s len=%d: message buffer rewritten in place between two ComputeMAC calls: second tag %x, reference for the second contents %x (%v)", cfg, n, tR, want(edited), errR)
+					return
+				}
+				if err := m.VerifyMAC(t1, reused); err == nil {
+					x.Fail("retains-argument", "%s len=%d: message buffer rewritten in place: VerifyMAC still accepts the tag of the previous contents", cfg, n)
+					return
+				}
+				reused[n/2] ^= 0x80
+			}
+			if err := m.VerifyMAC(t1, reused); err != nil {
 				x.Fail("verify-own", "%s len=%d: VerifyMAC rejects own tag: %v", cfg, n, err)
 				return
 			}
